@@ -5,6 +5,9 @@
 (* catch_unwind and logged).                                                *)
 (*   enc.all  {v, results: [{api, outcome, msg}]}                           *)
 (*   enc.nest {form, n, results}   a value nested n deep (n <= 64)          *)
+(*   enc.long {holder, ch, pad, n, results}  pad ASCII characters then n     *)
+(*        multi-byte ones, in a text-carrying holder, bare and under each    *)
+(*        display tag                                                        *)
 (***************************************************************************)
 EXTENDS HsCore, TraceBase
 
@@ -17,6 +20,7 @@ CheckResults(what, rs, i) ==
 
 Check(e) == CASE e.op = "enc.all" -> CheckResults(<<"encoder on a constructible value", e.v.k>>, e.results, 1)
               [] e.op = "enc.nest" -> CheckResults(<<"encoder on a nested value", e.form, e.n>>, e.results, 1)
+              [] e.op = "enc.long" -> CheckResults(<<"encoder on a long multi-byte text", e.holder, e.pad, e.n>>, e.results, 1)
               [] OTHER -> <<<<"SPEC", <<"unknown op", e.op>>>>>>
 
 Init == l = 1 /\ nbad = 0
